@@ -270,6 +270,16 @@ func c04Receiver(r *R) {
 				"pause signal pauses the transport", "ErrPause path does not pause the transport: "+pt.Describe())
 		}
 	}
+	// the transport channel is closed only after establishing that the outcome is not the pause signal
+	nCl := 0
+	for _, pt := range r.pathsOf("C04.5", fn) {
+		if pt.Count(r.p.Is("(datatransfer.Transport).CloseChannel")) == 0 {
+			continue
+		}
+		nCl++
+		r.c.Check(pt.Has("-ErrPause=="+rerr) && pt.Has("-"+rerr+"==nil"), "C04.5", fmt.Sprintf("close-not-pause#%d", nCl), r.p.Pos(fn.Pos()), "closed only for a real error (not the pause signal)",
+			"the transport channel is closed on a path that did not rule out the pause signal: a 'stay paused' outcome closes the transfer instead of pausing it: "+pt.Describe())
+	}
 	r.c.Floor("C04.5", nRej, 1, "rejecting paths reaching the final error test in receiveRequest")
 	r.c.Floor("C04.5", nPause, 1, "pause paths in receiveRequest")
 	// same for responses
